@@ -63,6 +63,23 @@ def _pop_model(delay_kind):
     return c16.make_model(POP_KINDS[delay_kind], 1)
 
 
+def _declared(backend):
+    """SUPPORTED_SOLVERS of a backend class, read from the source text (importing torch/jax in the parent process
+    would deadlock the forked workers)"""
+    import ast, pyrates
+    root = os.path.dirname(pyrates.__file__)
+    f, cname = dict(default=('base/base_backend.py', 'BaseBackend'), torch=('torch/torch_backend.py', 'TorchBackend'),
+                    jax=('jax/jax_backend.py', 'JaxBackend'), fortran=('fortran/fortran_backend.py', 'FortranBackend'))[backend]
+    tree = ast.parse(open(os.path.join(root, 'backend', f)).read())
+    for n in ast.walk(tree):
+        if isinstance(n, ast.ClassDef) and n.name == cname:
+            for st in n.body:
+                tg = st.target if isinstance(st, ast.AnnAssign) else (st.targets[0] if isinstance(st, ast.Assign) else None)
+                if tg is not None and getattr(tg, 'id', None) == 'SUPPORTED_SOLVERS':
+                    return tuple(ast.literal_eval(st.value))
+    return _declared('default') if backend != 'default' else ()
+
+
 def _supported(backend):
     from pyrates.backend.base.base_backend import BaseBackend
     from pyrates.backend.torch.torch_backend import TorchBackend
@@ -112,6 +129,17 @@ def cell_job(job):
     out['expected'] = expected_class(job['backend'], job['solver'], job['vectorize'], job['delay'],
                                      job.get('sparse', False), job.get('jac', False))
     try:
+        # history cells: the same solver name is first used where it IS supported, on another backend in this process
+        # (a guard that remembers accepted names across backends must not wave the unsupported request through)
+        for pb in job.get('pre', ()):
+            try:
+                with warnings.catch_warnings():
+                    warnings.simplefilter('ignore')
+                    build_python(base_spec('none')).run(simulation_time=0.5, step_size=0.1, solver=job['solver'], backend=pb,
+                                                       vectorize=job['vectorize'], outputs={'o': 'n0/li/x'}, verbose=False,
+                                                       float_precision='float64', in_place=False)
+            except Exception as e:   # noqa
+                out['detail'] += f"[pre {pb}: {type(e).__name__}] "
         with warnings.catch_warnings(record=True) as wlist:
             warnings.simplefilter('always')
             try:
@@ -126,14 +154,14 @@ def cell_job(job):
                                 float_precision='float64', in_place=False)
                     vals = np.asarray(df.values, dtype=float)
                     out['outcome'] = 'returns'
-                    out['detail'] = f"shape={vals.shape} finite={bool(np.all(np.isfinite(vals)))}"
+                    out['detail'] += f"shape={vals.shape} finite={bool(np.all(np.isfinite(vals)))}"
             except Exception as e:   # noqa
                 msg = f"{type(e).__name__}: {e}"
                 if any(k in msg for k in ENV_ERRORS) and 'gfortran:' not in msg:
                     out['outcome'] = 'env'       # passed every guard, failed at the missing f2py/meson toolchain
                 else:
                     out['outcome'] = 'raises'
-                out['detail'] = msg[:300]
+                out['detail'] += msg[:300]
     finally:
         os.chdir(old)
         shutil.rmtree(wd, ignore_errors=True)
@@ -360,6 +388,15 @@ def run(tier='quick', seed=0, only=None, verbose=False):
             if b != 'fortran':
                 for d in POP_KINDS:
                     cells.append(dict(key=f"cell:{b}:{s}:vec=True:{d}", backend=b, solver=s, vectorize=True, delay=d))
+    # histories: an unsupported (backend, solver) request AFTER the same solver ran legally on the backends that support it
+    # (fortran is left out as a predecessor: its tool chain is a stand-in here)
+    for b in BACKENDS:
+        for s in SOLVERS:
+            pre = [pb for pb in BACKENDS if pb not in (b, 'fortran') and s in _declared(pb)]
+            if s not in _declared(b) and pre:
+                for v in ((True, False) if b != 'fortran' else (False,)):
+                    cells.append(dict(key=f"cell-after:{'+'.join(pre)}:{b}:{s}:vec={v}:none", backend=b, solver=s, vectorize=v,
+                                      delay='none', pre=pre))
     # backend names that do not exist (one of them a former PyRates backend)
     for b in ('tensorflow', 'nunpy'):
         for v in (True, False):
